@@ -38,10 +38,7 @@ func (e *Engine) inErrScope(fn *ssa.Function, sc errScope) bool {
 	if sc.pkgs[rel] {
 		return true
 	}
-	if rel == "" || rel == "tools" {
-		return sc.files[e.relFile(fn.Pos())]
-	}
-	return false
+	return sc.files[e.relFile(fn.Pos())]
 }
 
 // errValueOf returns the error-typed value produced by a call (the call
@@ -250,6 +247,11 @@ func (e *Engine) CheckErrDiscipline(r *Report, sc errScope, accept map[string]st
 					continue
 				}
 				skip := false
+				if call.Call.IsInvoke() {
+					if rt := recvTypeName(call.Call.Value.Type()); rt == "hash.Hash" || rt == "hash.Hash32" || rt == "hash.Hash64" {
+						skip = true // documented: Write never returns an error
+					}
+				}
 				for _, g := range e.Callees(call) {
 					if ignoredErrCallee(g) {
 						skip = true
@@ -404,6 +406,21 @@ func (e *Engine) successFromErrEdge(fn *ssa.Function, from, succ *ssa.BasicBlock
 			}
 			return allNil
 		}
+		// the result of another fallible call, unrelated to the failed one and not
+		// known to be non-nil at the return: `return firstError(nil, other())` on the
+		// error edge reports success whenever the other call succeeds.
+		if c, ok := v.(*ssa.Call); ok && !aliases[v] && isErrorType(c.Type()) {
+			if isErrConstructor(e, c) {
+				return false
+			}
+			if e.dependsOn(v, func(x ssa.Value) bool { return aliases[stripChangeInterface(x)] }, 0) {
+				return false
+			}
+			if hasCmpFact(FactsAt(in), "!=", func(x ssa.Value) bool { return x == v }, isNilConst) {
+				return false
+			}
+			return true
+		}
 		return false
 	}
 	// handled: passing the error (or an alias) to a non-returning call, or
@@ -442,6 +459,9 @@ func (e *Engine) successFromErrEdge(fn *ssa.Function, from, succ *ssa.BasicBlock
 			// element) or a channel: it is handed to someone else, which is
 			// outside E2/E3 (the reader of that location is checked where it
 			// tests the value).
+			if st, ok := in.(*ssa.Store); ok && aliases[stripChangeInterface(st.Val)] && storedForLogging(st) {
+				continue // only printed
+			}
 			if st, ok := in.(*ssa.Store); ok && aliases[stripChangeInterface(st.Val)] {
 				if _, spill := st.Addr.(*ssa.Alloc); !spill || !isErrorType(st.Val.Type()) || st.Addr.(*ssa.Alloc).Heap {
 					stopped = true
@@ -566,4 +586,67 @@ func (e *Engine) CheckStickyErrors(r *Report, pkgRel string) int {
 		})
 	}
 	return n
+}
+
+// isErrConstructor: the call always returns a non-nil error (errors.New,
+// fmt.Errorf, errors.Wrap* / WithStack of the errors packages), or has no
+// fallible callee inside the module (a constructor-like helper).
+func isErrConstructor(e *Engine, c *ssa.Call) bool {
+	sc := c.Call.StaticCallee()
+	if sc == nil || sc.Pkg == nil {
+		return false
+	}
+	pp := sc.Pkg.Pkg.Path()
+	if pp == "errors" || pp == "fmt" || strings.HasSuffix(pp, "cockroachdb/errors") || strings.HasSuffix(pp, "pkg/errors") {
+		switch sc.Name() {
+		case "New", "Errorf", "Newf":
+			return true
+		}
+	}
+	return false
+}
+
+// storedForLogging: the store puts the value into a varargs array whose only
+// consumer is a logging call (Errorf/Warningf/Infof/Debugf): printing an
+// error hands it to nobody.
+func storedForLogging(st *ssa.Store) bool {
+	ia, ok := st.Addr.(*ssa.IndexAddr)
+	if !ok {
+		return false
+	}
+	al, ok := ia.X.(*ssa.Alloc)
+	if !ok || al.Comment != "varargs" || al.Referrers() == nil {
+		return false
+	}
+	logged := false
+	for _, ref := range *al.Referrers() {
+		sl, ok := ref.(*ssa.Slice)
+		if !ok {
+			continue
+		}
+		if sl.Referrers() == nil {
+			return false
+		}
+		for _, u := range *sl.Referrers() {
+			c, ok := u.(*ssa.Call)
+			if !ok {
+				return false
+			}
+			name := ""
+			if c.Call.IsInvoke() {
+				name = c.Call.Method.Name()
+			} else if sc := c.Call.StaticCallee(); sc != nil {
+				name = sc.Name()
+			}
+			switch name {
+			case "Errorf", "Warningf", "Infof", "Debugf":
+				if c.Call.IsInvoke() || (c.Call.StaticCallee() != nil && c.Call.StaticCallee().Signature.Recv() != nil) {
+					logged = true
+					continue
+				}
+			}
+			return false
+		}
+	}
+	return logged
 }
